@@ -111,6 +111,21 @@ def expect_rows(cx, tab, x0, z0, r0, axes, table, label, wrong=False):
     cx.check(AND(conds), label=label)
 
 
+def worker_setup():
+    import importlib
+
+    from symx import proxy
+
+    class BoolNp(proxy.NpProxy):
+        def zeros(self, shape, dtype=float, **k):
+            if dtype is bool or dtype is np.bool_:
+                return proxy.obj_full(shape, SBool(False)).view(np.ndarray)
+            return proxy.NpProxy.zeros(self, shape, dtype=dtype, **k)
+
+    importlib.import_module('cirq.sim.clifford.stabilizer_state_ch_form').__dict__['np'] = BoolNp()
+    return ['cirq.sim.clifford.stabilizer_state_ch_form.np.zeros(dtype=bool) -> array of symbolic False']
+
+
 def obligations(tier):
     import cirq
 
@@ -322,6 +337,61 @@ def obligations(tier):
                     checks.append(EQ(tab.rs[i], r0[i]))
         cx.check(AND(checks), label='tableau._measure post-state and outcome')
 
+    # ---- (d) CH form: amplitudes from an arbitrary VALID CH-form state -----------------------------------------
+    def sym_ch(cx, n):
+        st = cirq.StabilizerStateChForm(n)
+
+        def barr(name, shape):
+            a = np.empty(shape, dtype=object if cx.mode != 'concrete' else bool)
+            for idx in itertools.product(*[range(s_) for s_ in shape]):
+                a[idx] = cx.bool(name + ''.join(map(str, idx)))
+            return a
+
+        st.F, st.G, st.M = barr('F', (n, n)), barr('G', (n, n)), barr('M', (n, n))
+        g = np.empty(n, dtype=object if cx.mode != 'concrete' else int)
+        for i in range(n):
+            g[i] = cx.int(f'g{i}', 0, 3)
+        st.gamma = g
+        st.v, st.s = barr('v', (n,)), barr('s', (n,))
+        st.omega = 1 + 0j
+
+        # representation invariant (Bravyi et al. 2019): F G^T = I, F M^T symmetric, gamma_p = (F M^T)_pp mod 2
+        def dot2(A, i, B, j):
+            acc = False if cx.mode == 'concrete' else SBool(False)
+            for k in range(n):
+                t_ = (bool(A[i, k]) and bool(B[j, k])) if cx.mode == 'concrete' else (A[i, k] & B[j, k])
+                acc = (acc != t_) if cx.mode == 'concrete' else (acc ^ t_)
+            return acc
+
+        conds = []
+        for i in range(n):
+            for j in range(n):
+                e = dot2(st.F, i, st.G, j)
+                conds.append(e if i == j else NOT(e))
+                if i < j:
+                    conds.append(EQ(dot2(st.F, i, st.M, j), dot2(st.F, j, st.M, i)))
+            conds.append(EQ((st.gamma[i] % 2 == 1), dot2(st.F, i, st.M, i)))
+        cx.assume(AND(conds))
+        return st
+
+    def reindex_body(cx, wrong=False, pi_=0):
+        n = 3
+        axes = list(list(itertools.permutations(range(n)))[pi_])
+        st = sym_ch(cx, n)
+        new = st.reindex(axes)
+        x = cx.choose('x', 2**n)
+        ybits = [(x >> (n - 1 - i)) & 1 for i in range(n)]
+        old = [0] * n
+        for i in range(n):
+            old[axes[i]] = ybits[i]
+        if wrong:
+            old = old[::-1]
+        xo = int(''.join(map(str, old)), 2)
+        cx.close(new.inner_product_of_state_and_x(int(x)), st.inner_product_of_state_and_x(xo), label='StabilizerStateChForm.reindex amplitude')
+
+    for pi_ in ((1, 3, 4) if tier == 'quick' else range(6)):
+        obs.append(Obligation(f'chform.reindex.perm{pi_}', lambda cx, pi_=pi_: reindex_body(cx, pi_=pi_), twin=(lambda cx, pi_=pi_: reindex_body(cx, wrong=True, pi_=pi_)) if pi_ in (1, 3) else None, opts={'weight': 30, 'vc_timeout_ms': 120000}, desc='StabilizerStateChForm.reindex(axes) for every permutation of 3 qubits from an ARBITRARY valid CH-form state (F, G, M, gamma, v, s symbolic under the representation invariant): every amplitude <y|reindexed> equals the amplitude of the correspondingly permuted basis state of the original'))
+
     for n_ in ([2] if tier == 'quick' else [2, 3]):
         obs.append(
             Obligation(
@@ -349,6 +419,7 @@ def main(tier, seed=0, replay=None, only=None, procs=None):
         'exponent_box': [-4, 4],
         'act_on_gate_menu': 'X,Y,Z half-integer powers, H, CZ, CX, SWAP integer powers, S, ISWAP, shifted gates, PhasedXZ/PhasedX Cliffords, CY, YY, XX**0.5, ZZ**0.5, all 24 SingleQubitCliffordGate',
         'measure': 'n = 2 (quick) / 2, 3 (thorough), every qubit, arbitrary valid tableau, both coin outcomes',
-        'outside': ['CliffordTableau.then / inverse', 'StabilizerStateChForm (CH form)', 'CliffordGate group laws', 'n > 3'],
+        'chform': 'reindex for 3 (quick: one swap and both 3-cycles) / all 6 (thorough) permutations of 3 qubits from an arbitrary valid CH-form state',
+        'outside': ['CliffordTableau.then / inverse', 'CH-form gate rules, measurement, kron', 'CliffordGate group laws', 'n > 3'],
     }
     return run_check(PID, tier, 'checks.C13', SHIMS, LEVEL, BASE_ASSUMPTIONS, bounds, seed=seed, replay=replay, only=only, procs=procs)
